@@ -46,7 +46,26 @@ import props.anchors as anchors
 
 def run(ctx, chk):
     O, P = ctx.O, ctx.P
-    anchors.check(ctx, chk, ['header_write', 'update_computed', 'reset_base', 'eager_version'])
+    anchors.check(ctx, chk, ['header_write', 'update_computed', 'reset_base', 'eager_version', 'computed_field',
+                             'computed_not_vec_version'])
+    # G7 the header is persisted whole: every region write reachable from Header::write starts at offset 0 (a partial
+    # rewrite of one field can drop a pending change of another, e.g. the computed version)
+    hw = "vecdb::base::header::Header::write"
+    n7, bad7 = 0, []
+    for g in sorted({hw} | {x for x in O.reach(hw) if x.startswith("vecdb::base::header::")}):
+        G = P.bodies.get(g)
+        if G is None:
+            continue
+        for b in O.sites(G, M(r"rawdb::region::Region::(write_at|write|truncate_write)")):
+            t = G.blocks[b]["term"]
+            n7 += 1
+            off = t["args"][2] if names(t)[0].endswith("write_at") else (t["args"][1] if names(t)[0].endswith("truncate_write") else None)
+            if off is None or O.const_of(G, off) != "0":
+                bad7.append("%s at %s" % (g.split("::")[-1], t.get("span")))
+    chk.oblige("G7 Header::write persists the whole header: every region write it reaches starts at offset 0 [%d write(s)]"
+               % n7, n7 >= 1 and not bad7, detail={"partial_writes": bad7}, key="G7|Header::write|partial-header-write",
+               msg="a stamp-only (or other partial) header write can be chosen while a full write is pending: the new "
+                   "computed version never reaches the disk and a re-import pairs new results with the old version")
     comp = {bid: b for bid, b in P.bodies.items() if is_compute(bid) and b.kind != "closure"}
     if len(comp) < 70:
         raise AnchorMissing("expected >= 70 compute_* methods of EagerVec, found %d" % len(comp))
